@@ -23,6 +23,7 @@ class ParserSessionProp(object):
     need_poplog = False
     replica_rate = {'quick': 0.0, 'thorough': 0.0}
     fork_rate = {'quick': 0.03, 'thorough': 0.1}
+    big_batch_rate = {'quick': 0.0, 'thorough': 0.0}
     penalty_choices = (0.0, 0.1, 0.1, 1.0, 10.0, -0.5, -2.0)   # the repository accepts any float
     rich_tokens = False
     rule = ''
@@ -42,6 +43,7 @@ class ParserSessionProp(object):
             'pooled_bias': rng.choice([0.3, 0.6, 0.9]),
             'replica_rate': self.replica_rate.get(tier, 0.0),
             'fork_rate': self.fork_rate.get(tier, 0.0),
+            'big_batch_rate': self.big_batch_rate.get(tier, 0.0),
             'step_cap': rng.choice([20000, 5000]),
             'step_cap_nbest': rng.choice([1500, 4000]),
         }
@@ -84,7 +86,9 @@ class ParserSessionProp(object):
         if r < 0.12:
             return [rng.choice(sids)]
         size = rng.randint(2, 12)
-        if rng.random() < 0.35:
+        if rng.random() < knobs.get('big_batch_rate', 0.0):
+            size = rng.randint(21, 32)           # larger than the repository's default chunk size
+        if rng.random() < 0.35 or size > 20:
             return [rng.choice(sids) for _ in range(size)]
         batch = list(sids)
         rng.shuffle(batch)
@@ -109,7 +113,9 @@ class ParserSessionProp(object):
     def gen_call(self, rng, world, knobs, cfg):
         batch = self.gen_batch(rng, world, knobs)
         processes = rng.randint(1, 5)
-        if rng.random() < knobs['pooled_bias'] and len(batch) > 1:
+        if len(batch) > 20 and rng.random() < 0.7:
+            mcs = 20                             # the default max_chunk_size: the pooled path as shipped
+        elif rng.random() < knobs['pooled_bias'] and len(batch) > 1:
             mcs = rng.choice([0, 1, 1, 2, 3, 4, 8])
         else:
             mcs = rng.choice([20, 12, len(batch)])
